@@ -8,27 +8,27 @@ PROP = {
     'checker_vo': 'rp/RpCheck.vo',
     'scenario': 'c01',
     'evals': ['agrees', 'c01_ok'],
-    # --f04c 1 adds the scripted history of the known finding F04c (key-roll activation under a smaller new
-    # certificate) and switches off the guard that lets a rolling CA catch up with its parent after every operation
-    'extra': {'quick': {'histories': 6, 'ops': 40, 'every': 10, 'f04c': 0, 'threads': 6},
-              'thorough': {'histories': 48, 'ops': 120, 'every': 12, 'f04c': 0, 'threads': 8}},
+    # history 0 always starts with the scripted history of finding F04c (key-roll activation under a smaller new
+    # certificate; repaired in 0ff85b31), and the random histories are not shielded from it
+    'extra': {'quick': {'histories': 6, 'ops': 40, 'every': 10, 'threads': 6},
+              'thorough': {'histories': 48, 'ops': 120, 'every': 12, 'threads': 8}},
     'replay_header': R_HEADER,
     'replay_footer': "Eval vm_compute in (failing agrees base_index cases).\nEval vm_compute in (failing c01_ok base_index cases).\nEval vm_compute in (map diagnose cases).",
-    'stats_keys': ['histories', 'ops_per_history', 'check_every', 'f04c_mode', 'derive_tracking_mismatch', 'masks_inexact'],
+    'stats_keys': ['histories', 'ops_per_history', 'check_every', 'derive_tracking_mismatch', 'masks_inexact'],
     'harness_timeout': 3000,
     'assumptions': [
         'signatures and hashes are perfect: the signature bit of an abstract object is the outcome of the rpki crate\'s cryptographic and profile checks on the real object, a hash is a content identity (two files have the same interned hash iff their SHA-256 agree)',
         'resource sets are abstracted to masks over 12 atoms (AS 64512+i, 10.i.0.0/16, 2001:db8:i::/48) plus one "everything" bit; certificates of the scenario hold unions of whole atoms (measured: masks_inexact = 0), so containment of masks is containment of resource sets; the reference validation decides containment on the real resource sets and must agree',
         'a case is taken at a quiescent point: queued background tasks were run through the scheduler hook until nothing was due, every CA was synchronised with its parent and its repository (at most three rounds); expected payloads are those of the classes whose certificate chain to the trust anchor is intact in the CA states (the parent issues a certificate with the same resources for the class\'s current key)',
         'the clock is read once per case; validity windows of the scenario are far from their boundaries (manifests are back-dated 5 minutes and valid for a day, objects for weeks)',
-        'default mode lets a CA that is in the middle of a key roll synchronise with its parent after every operation, so that a new key is never activated under a smaller certificate than the current key\'s (known finding F04c; --f04c 1 reproduces it)',
+        'history 0 starts with the scripted history of finding F04c (entitlement reduced between key-roll initiation and activation; repaired in 0ff85b31) and no history is shaped to avoid that situation; a regression is reported with the failure class overclaiming_products_after_roll_under_smaller_cert',
         'L5 (repository = object store after a sync) uses the publication server as specified by server_applies_verified_delta (the C10 side); the top theorem takes Quiescent (every repository synchronised, every child certificate as published by the parent) as a premise: reaching it by pumping is C02 convergence plus C09 follow-up completeness',
     ],
     'trusted_extra': ['harness/src/bin/c01.rs: decoding with the rpki crate, abstraction of repository objects / CA states / stored ROA events to model terms, reference top-down validation'],
 }
 
 META = {
-    'text': 'Theorems (Coq, closed under the global context), layered as in DESIGN section 5/C01. L1: the ROA derivation with its four modes (simple, start aggregating, aggregate, stop aggregating) modelled as the Rust is: after create_updates + apply the payloads of simple and aggregate ROAs are exactly the configured routes the certificate holds, simple and aggregate ROAs never coexist, make_roa never fails, for every previous state and over whole histories (shrink-then-regrow while aggregated, threshold crossings both ways); same exactness for ASPA objects and router certificates; renewal at key-roll activation keeps the payloads without looking at the new certificate (model-level witness of F04c). L3: after every run of the pre-save listener every key set\'s stored manifest lists exactly its CRL and its published objects with their content identities and the stored CRL carries exactly the revocations (every content-changing arm forces re-issuance, re-issuance rebuilds all sets). L4: products derived under a certificate stay within it; child certificates under the C02 hypothesis. L5: list-then-delta synchronisation makes the publisher\'s content equal to the elements of the object store, given a server that applies verified deltas. Top: for a hierarchy of arbitrary shape whose publication points are exact, contained, current and synchronised (Quiescent), the abstract relying party accepts every published object, reports nothing missing or unlisted, and yields exactly the payloads of the tree. Tie: at quiescent points of random multi-level histories under three aggregation-threshold configurations the complete REAL repository content is decoded and verified with the rpki crate in an independent top-down walk; the same content, abstracted, is validated by the model relying party inside Coq; both must accept and reject the same objects and produce the same VRP / ASPA / router-key sets; these must equal the sets expected from the API\'s configured view and the current certificates; API-reported objects must be the repository objects; the RRDP snapshot must serve the publishers\' files; every stored ROA update is compared with the model\'s create_updates / renewal.',
+    'text': 'Theorems (Coq, closed under the global context), layered as in DESIGN section 5/C01. L1: the ROA derivation with its four modes (simple, start aggregating, aggregate, stop aggregating) modelled as the Rust is: after create_updates + apply the payloads of simple and aggregate ROAs are exactly the configured routes the certificate holds, simple and aggregate ROAs never coexist, make_roa never fails, for every previous state and over whole histories (shrink-then-regrow while aggregated, threshold crossings both ways); same exactness for ASPA objects and router certificates; renewal at key-roll activation leaves exactly the payloads the new key\'s certificate holds (code of record since the repair of F04c; the pinned renewal and its over-claiming witness are kept as regression theorems). L3: after every run of the pre-save listener every key set\'s stored manifest lists exactly its CRL and its published objects with their content identities and the stored CRL carries exactly the revocations (every content-changing arm forces re-issuance, re-issuance rebuilds all sets). L4: products derived under a certificate stay within it, at key-roll activation too (within the new key\'s certificate); child certificates under the C02 hypothesis. L5: list-then-delta synchronisation makes the publisher\'s content equal to the elements of the object store, given a server that applies verified deltas. Top: for a hierarchy of arbitrary shape whose publication points are exact, contained, current and synchronised (Quiescent), the abstract relying party accepts every published object, reports nothing missing or unlisted, and yields exactly the payloads of the tree. Tie: at quiescent points of random multi-level histories under three aggregation-threshold configurations the complete REAL repository content is decoded and verified with the rpki crate in an independent top-down walk; the same content, abstracted, is validated by the model relying party inside Coq; both must accept and reject the same objects and produce the same VRP / ASPA / router-key sets; these must equal the sets expected from the API\'s configured view and the current certificates; API-reported objects must be the repository objects; the RRDP snapshot must serve the publishers\' files; every stored ROA update is compared with the model\'s create_updates / renewal.',
     'design_ref': 'DESIGN.md section 5 C01',
     'note': 'Trusted: Coq kernel + vm_compute; harness abstraction in c01.rs and the rpki crate\'s decoders and signature verification. Modelled not verified: Routes::filter, Roas::create_updates / mode / update_* / create_renewal / apply_updates (roa.rs), AspaObjects::create_updates (aspa.rs), BgpSecCertificates::create_updates (bgpsec.rs), the listener\'s re-issue discipline and manifest construction (publishing.rs), ca_repo_sync (manager.rs). By hypothesis: publication server applies verified deltas (C10), child certificates within the parent certificate (C02), quiescence reachable (C02 + C09). Outside: RFC profile details of objects beyond what the rpki crate checks; behaviour of other relying-party software; timing boundaries (windows are kept far from now).',
     'technique': 'Coq proof over product-derivation, object-store and relying-party models (invariants, induction over histories and over the CA tree) + whole-repository correspondence evaluated in Coq against an rpki-crate reference validation',
